@@ -227,7 +227,7 @@ class TruncatedGaussianMeasure:
             -(normal_pdf(self.beta[:, 0]) - normal_pdf(self.alpha[:, 0])) / denominator,
         )
         Ls = scan(scan_function, (L0, L1), jnp.arange(2, order + 1))[1]
-        Ls = jnp.concatenate([L0[None], L1[None], Ls], axis=0)
+        Ls = jnp.concatenate([L0[None], L1[None], Ls], axis=0)[: order + 1]
         k_range = jnp.arange(0, order + 1)[:, None]
         if return_all:
             moments = jnp.cumsum(
